@@ -36,6 +36,7 @@ func HostileValues(cur uint64, width int, remaining int) []uint64 {
 		1<<32 - 2, 1<<32 - 12, 1<<32 - 128, 1<<32 - 132, 0x80000000 + 12, 0xFFFFFF00,
 		cur + 1, cur - 1, cur + 12, cur - 12, cur * 2, cur + 4096, uint64(remaining), uint64(remaining) + 1, uint64(remaining) - 1,
 		max, max - 1, max / 2, max/2 + 1, (1 << 32) - cur, (1 << 32) - cur + 1}
+	c = append(c, WrapValues(remaining)...)
 	seen := map[uint64]bool{}
 	var out []uint64
 	for _, v := range c {
@@ -43,6 +44,20 @@ func HostileValues(cur uint64, width int, remaining int) []uint64 {
 		if !seen[v] && v != cur {
 			seen[v] = true
 			out = append(out, v)
+		}
+	}
+	return out
+}
+
+// WrapValues returns counts whose product with a small element size (2, 4, 8, 12, 16) wraps 2^32 to a value at
+// most a little above remaining: a bound check done on the wrapped product passes while the count itself is huge.
+func WrapValues(remaining int) []uint64 {
+	var out []uint64
+	for _, m := range []uint64{2, 4, 8, 12, 16} {
+		base := (uint64(1)<<32 + m - 1) / m // smallest count whose product reaches 2^32
+		out = append(out, base, base+1, base+2)
+		if remaining > 0 {
+			out = append(out, base+uint64(remaining)/m, base+uint64(remaining)/m-1)
 		}
 	}
 	return out
